@@ -160,9 +160,12 @@ func (c *ConfigSender) Derive(adjust curve.Scalar, newChainKey []byte) (*ConfigS
 
 	adjustG := adjust.ActOnBase()
 
+	// The secret key is the sum of the two shares, so the adjustment must be
+	// added to exactly one of them: the Receiver's share absorbs it, and the
+	// Sender's share stays the same.
 	return &ConfigSender{
 		Setup:       c.Setup,
-		SecretShare: c.SecretShare.Curve().NewScalar().Set(c.SecretShare).Add(adjust),
+		SecretShare: c.SecretShare.Curve().NewScalar().Set(c.SecretShare),
 		Public:      c.Public.Add(adjustG),
 		ChainKey:    newChainKey,
 	}, nil
